@@ -15,7 +15,7 @@ from ..catalog import KINDS, kinds_with, Pool, rand_width
 from ..seams import quiet
 
 PROP = 'C09'
-TIERS = {'quick': 7500, 'thorough': 80000}
+TIERS = {'quick': 7500, 'thorough': 400000}
 RULE = ('each run: one sequential library block (Reg with all option combinations, TReg, Counter, ModuloCounter, '
         'StepUpCounter, DelayLine, PipelinePhase, ShiftRegisterBidirectional, Stack_ShiftRegister, EdgeDetector, '
         'ClockDivider, SynchronousMemory, DualPortSynchronousMemory) at seeded widths/depths/moduli/reset values, '
